@@ -276,6 +276,27 @@ func TestVerifC01(t *testing.T) {
 			check(wd, "reattribute-counter", fmt.Sprintf("S1 counter=%d", ctr), wd.R.cloneParty(), wd.g, reboxHeaders(wd.g, ha, env.Message, env.Nonce), &h, true)
 		}
 
+		// (iv-b) a genuine message re-wrapped as a push payload by a fellow member: same ciphertext and signature, the
+		// entry identifier of the genuine entry (a push payload names its entry itself), the counter altered in one bit.
+		// On a receiver that has opened the genuine entry the key is found by identifier, so the nonce is what binds
+		// the counter: every one of the 64 single-bit alterations must be refused.
+		for _, name := range []string{"S1", "S2"} {
+			genuine := parse(e[name])
+			Ro := wd.R.cloneParty()
+			_ = Ro.open(wd.g, e["S1"])
+			_ = Ro.open(wd.g, e["S2"])
+			for bit := 0; bit < 64; bit++ {
+				oos := &protocoltypes.OutOfStoreMessage{Cid: cidOf(e[name]).Bytes(), DevicePk: clearHeaders[name].DevicePk, Counter: clearHeaders[name].Counter ^ (1 << uint(bit)), Sig: clearHeaders[name].Sig, EncryptedPayload: genuine.Message, Nonce: genuine.Nonce}
+				for ri, Rx := range []*party{wd.R.cloneParty(), Ro.cloneParty()} {
+					_, _, oerr := Rx.st.OutOfStoreMessageOpen(context.Background(), oos, groupPK(wd.g))
+					rep.Eval(fmt.Sprintf("%s/push-counter-bitflip/receiver-opened=%v/refused=%v", wd.kind, ri == 1, oerr != nil))
+					if oerr == nil {
+						rep.Violation("C01/push-reattributed-counter-opened", fmt.Sprintf("world=%s: genuine message %s re-wrapped as a push payload with counter bit %d altered (claimed counter %d, sealed at %d), receiver has opened the genuine entry: %v - delivered under the wrong counter", wd.kind, name, bit, oos.Counter, clearHeaders[name].Counter, ri == 1), c01Case{World: wd.kind, Kind: "push-counter-bitflip", Detail: fmt.Sprintf("%s bit=%d opened=%v", name, bit, ri == 1)})
+					}
+				}
+			}
+		}
+
 		// (v) forgery by F: F derives S's message key for counter k and encrypts its own payload
 		sDev := wd.S.md(wd.g).Device()
 		sDevRaw := mustBytes(sDev.Raw())
